@@ -71,6 +71,19 @@ def node_num_outputs(pipe, base_specs):
     return out
 
 
+def used_bases(pipe, i=None):
+    """Indices of the base circuits the node i (default: last) depends on, in increasing order."""
+    i = len(pipe) - 1 if i is None else i
+    n = pipe[i]
+    if n["op"] == "base":
+        return [n["i"]]
+    deps = n["as"] if n["op"] == "concatenate" else [n[k] for k in ("a", "b") if k in n]
+    out = set()
+    for j in deps:
+        out.update(used_bases(pipe, j))
+    return sorted(out)
+
+
 # ----------------------------------------------------------------------------- apply (code under test)
 def apply_node(n, scs, refuse=None, what=None):
     import cirkit.symbolic.functional as SF
@@ -78,6 +91,8 @@ def apply_node(n, scs, refuse=None, what=None):
 
     op = n["op"]
     refuse = refusal_types() if refuse is None else refuse
+    if op == "multiply":
+        refuse = (Exception,)  # C04: multiply either returns the product or raises (any error)
     with sut(what or f"op-{op}", refuse=refuse):
         if op == "integrate":
             Z = n.get("Z")
